@@ -23,7 +23,7 @@ def main():
         print(f"unknown property {pid}"); return 2
     run = F.Run(pid, tier, seed)
     try:
-        pr = F.prove(pid)
+        pr = F.prove(pid, tier)
     except Exception:
         traceback.print_exc(); return 2
     try:
